@@ -37,4 +37,10 @@ CHECKS = {
         "assumptions": ["round-trip delays within a lucky-packet history are pairwise distinct (the statement's precondition)", "Ntimed samples within a guard band of 1e-9 relative around a learned limit are not judged"],
         "timeout_quick": 400, "timeout_thorough": 1800,
     },
+    "C19": {
+        "pkg": "c19",
+        "rule": "rapid-generated update histories driving the real PLL against a recording fake clock.",
+        "assumptions": ["clock readings are non-decreasing and consecutive updates are at most 1e5 s apart (a gap of ~292 years overflows the duration conversion; outside any realistic history)", "MinInt64 offsets are exempt from the 'by exactly the offset' clause (negation saturates by design)"],
+        "timeout_quick": 400, "timeout_thorough": 1800,
+    },
 }
